@@ -55,6 +55,28 @@ OPAQUE = {
         "attrs": {},
         "methods": {"answers": ([], "List[Rec]", "{0}")},
     },
+    "RecId": {
+        # a record as the Reply model (C11/C12) sees it: the harness numbers the distinct records (C20 identity) of a scenario
+        "lean": "Nat",
+        "eq": "(fun a b => a == b)",
+        "always_truthy": True,
+        "immutable": True,
+        "attrs": {},
+    },
+    "ZcHandle": {
+        # the `Zeroconf` instance as the outgoing queue uses it: a handle to the loop and to `async_send` (effects, see EFFECTS)
+        "lean": "Unit",
+        "immutable": True,
+        "attrs": {"loop": ("LoopHandle", "()")},
+    },
+    "LoopHandle": {
+        # the event loop: `time()` is an environment reading (parameter `loop_time_ms`, in milliseconds: the float seconds of
+        # `loop.time()` are carried as the exact fraction loop_time_ms / 1000), `call_at` is an effect
+        "lean": "Unit",
+        "immutable": True,
+        "attrs": {},
+        "methods": {"time": ([], "Frac1000", "loop_time_ms")},
+    },
     "Svc": {
         # a registered ServiceInfo: the model's `Svc` has a non-optional server (`_add` asserts it, DESIGN §7 C03)
         "lean": "Svc",
